@@ -6,11 +6,30 @@
 #include <stddef.h>
 #include <stdbool.h>
 
+#ifndef VF_NATIVE
+/* every draw is written to a global so that it shows up in the counterexample trace
+ * (a direct "x = nondet()" assignment leaves no separate step) */
+unsigned char nondet_raw_uchar(void);
+int nondet_raw_int(void);
+unsigned nondet_raw_uint(void);
+size_t nondet_raw_size_t(void);
+static unsigned char vf_draw_uchar;
+static int vf_draw_int;
+static unsigned vf_draw_uint;
+static size_t vf_draw_size_t;
+static unsigned char vf_draw_bool;
+static inline unsigned char nondet_uchar(void) { unsigned char v = nondet_raw_uchar(); vf_draw_uchar = v; return v; }
+static inline int nondet_int(void) { int v = nondet_raw_int(); vf_draw_int = v; return v; }
+static inline unsigned nondet_uint(void) { unsigned v = nondet_raw_uint(); vf_draw_uint = v; return v; }
+static inline size_t nondet_size_t(void) { size_t v = nondet_raw_size_t(); vf_draw_size_t = v; return v; }
+static inline bool nondet_bool(void) { unsigned char v = nondet_raw_uchar(); __CPROVER_assume(v <= 1); vf_draw_bool = v; return v != 0; }
+#else
 unsigned char nondet_uchar(void);
 int nondet_int(void);
 unsigned nondet_uint(void);
 size_t nondet_size_t(void);
 bool nondet_bool(void);
+#endif
 
 #ifndef VF_NATIVE
 #define VF_ASSUME(c)        __CPROVER_assume(c)
